@@ -48,3 +48,112 @@ def run(ctx: Ctx) -> None:
            f"{n_fn} functions in {len(files)} anchored path(s): no operator, comparison, constructor, keyword, named store, yield or return combines "
            f"nanoseconds with seconds ({n_sites_all} unit-typed sites package-wide, {len(all_conf)} conflict(s) package-wide)", relpath="happysimulator/")
     ctx.stats["unit_typed_sites"] = n_sites_all
+    run_merge_purity(ctx)
+
+
+# M — merge(self, other) reads its argument and never writes it ----------------------------------------------------------------------------
+_MUTATORS = {"pop", "append", "remove", "clear", "extend", "insert", "update", "add", "discard", "sort", "popleft", "appendleft", "popitem",
+             "setdefault", "reverse", "difference_update", "intersection_update", "symmetric_difference_update", "__setitem__", "__delitem__"}
+_COPIERS = {"list", "dict", "set", "sorted", "tuple", "frozenset", "deepcopy", "copy.deepcopy", "copy.copy", "copy", "deque", "Counter", "bytearray"}
+MERGE_PROPS = {"C18": 6, "C20": 6}  # property -> merge methods confirmed on the reference tree (floor)
+
+
+def _rooted_at(e, names: set[str]) -> bool:
+    import ast
+    while isinstance(e, (ast.Attribute, ast.Subscript)):
+        e = e.value
+    return isinstance(e, ast.Name) and e.id in names
+
+
+def run_merge_purity(ctx: Ctx) -> None:
+    """A state-based merge must leave its argument as it found it: the argument is another replica / shard that keeps running (or is merged
+    into a third state next), so a merge that drains, reorders or later co-owns the argument's containers changes what *that* replica
+    reports and what the next merge sees.  Decided per `merge(self, other)` of the anchored files: no store, `del`, augmented assignment
+    or mutating method call on `other`, on anything reached through it, or on a local that is the argument's container itself (bound
+    without a copying constructor)."""
+    import ast
+
+    from .astutil import path_of, unparse, walk_scope, walk_stmts
+
+    prop = ctx.prop
+    if prop not in MERGE_PROPS:
+        return
+    files = anchored_files(prop)
+    rule = f"{prop}-M"
+    n = 0
+    for fn in ctx.prog.all_functions("happysimulator/"):
+        if not fn.module.relpath.startswith(files) or fn.cls is None or fn.name not in ("merge", "merge_from", "merge_with", "_merge_remote_state"):
+            continue
+        ps = [p for p in fn.params() if p != "self"]
+        if not ps:
+            continue
+        other = {ps[0]}
+        # locals that ARE (parts of) the argument: `x = other._a`, `x = other._a[k]`, `for k, x in other._a.items()` — not `x = list(other._a)`
+        alias = set(other)
+        changed = True
+        while changed:
+            changed = False
+            for st in walk_stmts(fn.node.body):
+                if isinstance(st, ast.Assign) and len(st.targets) == 1 and isinstance(st.targets[0], ast.Name):
+                    v = st.value
+                    if isinstance(v, ast.Call) and isinstance(v.func, ast.Attribute) and v.func.attr in ("get", "items", "values") and _rooted_at(v.func.value, alias):
+                        v = v.func.value
+                    if _rooted_at(v, alias) and isinstance(v, (ast.Attribute, ast.Subscript, ast.Name)) and st.targets[0].id not in alias:
+                        alias.add(st.targets[0].id)
+                        changed = True
+                elif isinstance(st, ast.For):
+                    it = st.iter
+                    if isinstance(it, ast.Call) and isinstance(it.func, ast.Attribute) and it.func.attr in ("items", "values") and _rooted_at(it.func.value, alias):
+                        tg = st.target.elts[-1] if isinstance(st.target, ast.Tuple) else st.target
+                        if isinstance(tg, ast.Name) and tg.id not in alias:
+                            alias.add(tg.id)
+                            changed = True
+        bad = []
+        for x in walk_scope(fn.node, include_root=False):
+            if isinstance(x, (ast.Assign, ast.AugAssign, ast.AnnAssign, ast.Delete)):
+                tgts = x.targets if isinstance(x, (ast.Assign, ast.Delete)) else [x.target]
+                for t in tgts:
+                    for tt in (t.elts if isinstance(t, ast.Tuple) else [t]):
+                        if isinstance(tt, (ast.Attribute, ast.Subscript)) and _rooted_at(tt, alias):
+                            bad.append((x, f"writes `{unparse(tt)}`"))
+            elif isinstance(x, ast.Call) and isinstance(x.func, ast.Attribute) and x.func.attr in _MUTATORS and _rooted_at(x.func.value, alias) \
+                    and not (isinstance(x.func.value, ast.Name) and x.func.value.id in other):
+                bad.append((x, f"calls `{unparse(x.func)}()` on the argument's own container"))
+            elif isinstance(x, ast.Assign) and False:
+                pass
+        # storing the argument's container in self without a copy: `self._a[k] = other_tags` / `self._a = other._a`
+        for st in walk_stmts(fn.node.body):
+            if isinstance(st, ast.Assign) and any(_rooted_at(t, {"self"}) for t in st.targets if isinstance(t, (ast.Attribute, ast.Subscript))):
+                v = st.value
+                if isinstance(v, (ast.Name, ast.Attribute, ast.Subscript)) and _rooted_at(v, alias) and not (isinstance(v, ast.Name) and v.id in other):
+                    kind = ctx.prog  # noqa: F841
+                    if isinstance(v, ast.Name) or isinstance(v, ast.Attribute):
+                        # scalars are harmless; only containers matter — decided by how the class initialises the attribute
+                        attr = v.attr if isinstance(v, ast.Attribute) else None
+                        ai = fn.cls.attrs.get(attr) if attr else None
+                        if isinstance(v, ast.Name) or (ai is not None and ai.kind in ("list", "dict", "set", "deque")):
+                            if isinstance(v, ast.Name) and not _container_alias(fn, v.id, alias):
+                                continue
+                            bad.append((st, f"stores the argument's own container `{unparse(v)}` in self (both replicas then share it)"))
+        n += 1
+        for node, why in bad:
+            ctx.ob(rule, "G9", fn, node, False, f"{fn.qual} {why}: a merge must leave its argument unchanged and take copies of what it keeps")
+        if not bad:
+            ctx.ob(rule, "G9", fn, "argument untouched", True, f"{fn.qual}: no store, del or mutating call reaches `{ps[0]}` or a container obtained from it without a copy; nothing of it is kept by reference")
+    if n < MERGE_PROPS[prop]:
+        raise AnalysisError(f"{rule}: only {n} merge methods found in the anchored files (< {MERGE_PROPS[prop]})")
+
+
+def _container_alias(fn, name: str, alias: set[str]) -> bool:
+    """`name` was bound from a loop over / lookup in the argument's container of containers (values of a dict of sets etc.)."""
+    import ast
+
+    from .astutil import walk_stmts
+    for st in walk_stmts(fn.node.body):
+        if isinstance(st, ast.For):
+            tg = st.target.elts[-1] if isinstance(st.target, ast.Tuple) else st.target
+            if isinstance(tg, ast.Name) and tg.id == name and isinstance(st.iter, ast.Call) and isinstance(st.iter.func, ast.Attribute) and st.iter.func.attr in ("items", "values"):
+                # values of a mapping: containers only if some mutator/copier is applied to them somewhere in this function
+                return any(isinstance(x, ast.Call) and isinstance(x.func, ast.Name) and x.func.id in ("set", "list", "dict") and x.args and isinstance(x.args[0], ast.Name) and x.args[0].id == name
+                           for x in ast.walk(fn.node)) or any(isinstance(x, ast.Call) and isinstance(x.func, ast.Attribute) and isinstance(x.func.value, ast.Name) and x.func.value.id == name for x in ast.walk(fn.node))
+    return False
